@@ -127,6 +127,14 @@ def run(ctx: Ctx) -> Result:
         foreign2 = T.make_graftap_witness_scriptspend(seeds[3], T.Script.from_src('true'))
         ok, v = B.auth([foreign2.bytes, locks['graftap'].bytes], sf)
         if ok: B.viol('graftap lock runs a surrogate signed by another key', {**inp, 'scripts': [foreign2.bytes.hex(), locks['graftap'].bytes.hex()], 'cache': vmrun.cache_str(sf, False)}, False, v)
+        # history: the foreign surrogates are perfectly valid against their *own* key's locks; validating them there must not
+        # make the first key's locks accept them afterwards (checked again right away and once more when all lists are re-run at the end)
+        own_gr = T.make_graftroot_lock(pks[3], lf); own_gt = T.make_graftap_lock(pks[3], lf)
+        for wfor, lown, lvic, what in ((foreign, own_gr, locks['graftroot'], 'graftroot'), (foreign2, own_gt, locks['graftap'], 'graftap')):
+            ok, v = B.auth([wfor.bytes, lown.bytes], sf)
+            if not ok: B.viol(f'{what}: surrogate `true` signed by a key is rejected by that key\'s own lock', {**inp, 'scripts': [wfor.bytes.hex(), lown.bytes.hex()], 'cache': vmrun.cache_str(sf, False)}, True, v)
+            ok, v = B.auth([wfor.bytes, lvic.bytes], sf)
+            if ok: B.viol(f'{what} lock runs a surrogate signed by another key after that key\'s own lock validated it (history)', {**inp, 'scripts': [wfor.bytes.hex(), lvic.bytes.hex()], 'cache': vmrun.cache_str(sf, False)}, False, v)
     B.finish()
     res.sample({'single_sig_lock': B.builds[0][1], 'line': B.builds[0][0][:120]})
     res.stats['search'] = 'each pairing judged on the implementation alone by the property sentence (compatibility table + perturbations)'
